@@ -4,7 +4,8 @@ Decided: SignedRefs<Verified> can only be produced by `verified()` behind
 `verify()`=Ok (typestate + who-may-construct); `verify` reaches Ok only behind a
 successful signature check by the retained key over the canonical text of the
 retained refs with the retained signature, and behind the identity-root binding
-(absent, or resolvable and equal to this repository's id).
+(absent, or resolvable and equal to this repository's id); the canonical text covers
+every ref of the map (no iteration of Refs::canonical skips the oid or the name).
 Not decided: the text round trip; tamper detection as a cryptographic fact."""
 import re
 
